@@ -768,6 +768,7 @@ def run(tier):
         dsp = dispatch.run_reads(chk, tier)
         fails += dsp['fails']
         disagreements += dsp['disagreements']
+        broken += dsp['broken']
         evaluations += dsp['evaluations']
         chk.coverage['dispatch'] = dsp['stats']
     except Infra as e:
